@@ -189,7 +189,8 @@ REQUIRED_PROBES = {
             "reach_probes.reuse_after_edit", "reach_probes.reuse_after_eviction", "reach_probes.cache_hits_cond",
             "reach_probes.cache_hits_ahb", "reach_probes.parse_caches_found"],
     "C12": ["fault_counts.F2_sibling_raise", "fault_counts.F3_sibling_cancel", "reach_probes.validity_setter_calls",
-            "out_of_order_completions"],
+            "reach_probes.model_clause_applied", "reach_probes.fc_model_clause_applied",
+            "reach_probes.more_than_16_keys_at_one_site", "out_of_order_completions"],
     "C13": ["reach_probes.pruned_nodes", "reach_probes.forbidden_nodes", "reach_probes.not_implemented_runs",
             "reach_probes.soll_false_runs", "fault_counts.F3_sibling_cancel", "out_of_order_completions"],
     "C15": ["reach_probes.owned_fc_calls", "reach_probes.fc_results_predicted", "reach_probes.elements_compared",
@@ -216,6 +217,10 @@ def cmd_probes(args):
             if not value:
                 print(f"{prop_id}: probe {name} is {value!r}")
                 problems += 1
+        if coverage["reach_probes"].get("report_does_not_fit_tree"):
+            print(f"{prop_id}: {coverage['reach_probes']['report_does_not_fit_tree']} reports did not fit the AHB tree "
+                  "(those runs were not judged)")
+            problems += 1
         if prop_id == "C11" and coverage["reach_probes"].get("parse_caches_found") != 2 * coverage["evaluations"]:
             print("C11: the two parse caches were not found in every run (total eviction would be a no-op)")
             problems += 1
